@@ -18,6 +18,7 @@ import (
 func c02RootOnly(r *rng, root *Ty) *c02gen {
 	c := c02Manual(r)
 	c.root = root
+	c.pTypedef = 35
 	return c
 }
 
@@ -135,7 +136,7 @@ func (c *c02gen) prepare() (*thrift.TypeDescriptor, []string) {
 
 func (c *c02gen) runDoc(r *rng, desc *thrift.TypeDescriptor, dfs []string, optBits int, doc []byte, keys []c02skey, full bool) {
 	opts := conv.Options{DisallowUnknownField: optBits&1 != 0, String2Int64: optBits&2 != 0, NoBase64Binary: optBits&4 != 0, EnableValueMapping: optBits&8 != 0}
-	cv := j2t.NewBinaryConv(opts)
+	cv := c02Conv(r, opts, desc, []byte("{}"))
 	c.emit(optBits, c.oobLookups(keys), doc, c02Run(r, &cv, desc, doc, full), dfs)
 }
 
@@ -367,6 +368,38 @@ func genC02Special(r *rng, class int) int {
 				c.runDoc(r, desc, dfs, ob, d, nil, len(d) < 200 && r.chance(30))
 				n++
 			}
+		}
+	case 6: // write options x documents whose LAST member is null x every capacity: model-free check 202 (capacity independence only;
+		// what is filled in for absent fields is C16's subject)
+		WI := &Ty{K: thrift.STRUCT, Name: "WI"}
+		WI.Fields = []*Fld{{ID: 1, Name: "x", T: sc(thrift.I32)}, {ID: 2, Name: "s", T: sc(thrift.STRING)}}
+		W := &Ty{K: thrift.STRUCT, Name: "W"}
+		W.Fields = []*Fld{
+			{ID: 1, Name: "a", T: sc(thrift.I64)}, {ID: 2, Name: "s", T: sc(thrift.STRING)}, {ID: 3, Name: "l", T: &Ty{K: thrift.LIST, Elem: sc(thrift.I32)}},
+			{ID: 4, Name: "in", T: WI}, {ID: 5, Name: "o", T: sc(thrift.I32), Req: 2}, {ID: 6, Name: "os", T: sc(thrift.STRING), Req: 2},
+			{ID: 7, Name: "d", T: sc(thrift.DOUBLE)}, {ID: 8, Name: "m", T: &Ty{K: thrift.MAP, Key: sc(thrift.STRING), Elem: sc(thrift.I32)}},
+			{ID: 9, Name: "rq", T: sc(thrift.I32), Req: 1},
+		}
+		c := c02Manual(r.fork(), W, WI)
+		desc, _ := c.prepare()
+		docs := []string{`{"a":null}`, `{"s":"x","a":null}`, `{"in":{"x":null}}`, `{"in":{"s":"q","x":null},"a":null}`, `{"o":null}`, `{"a":1,"o":null}`,
+			`{"a":null,"s":"x"}`, `{}`, `{"in":{},"d":null}`, `{"l":[1,2],"m":{"k":null},"s":null}`, `{"rq":1,"a":null}`, `{"rq":null}`, `{"in":{"x":null},"rq":2}`,
+			`{"a":null }`, `{"zz":1,"a":null}`, `{"a":null,"zz":null}`, `{"l":null}`, `{"in":null}`, `{"in":{"x":1,"s":null}}`}
+		for k := 0; k < 5; k++ {
+			doc := []byte(docs[r.intn(len(docs))])
+			if r.chance(30) {
+				doc = append([]byte(strings.Repeat(" ", r.intn(6))), doc...)
+			}
+			wb := []int{16, 32, 64, 16 | 64, 16 | 32 | 64, 0, 16, 16 | 32}[r.intn(8)]
+			opts := conv.Options{WriteDefaultField: wb&16 != 0, WriteRequireField: wb&32 != 0, WriteOptionalField: wb&64 != 0}
+			cv := j2t.NewBinaryConv(opts)
+			res := c02Run(r, &cv, desc, doc, true)
+			f := []string{fi(wb), fx(doc), fi(len(res))}
+			for _, x := range res {
+				f = append(f, fi(x.cap), fx(x.pre), fi(x.ec), fx(x.out))
+			}
+			out.emit(202, f...)
+			n++
 		}
 	case 4: // hand-written deviations and malformed texts on a fixed shape (each line: option bits, text)
 		c := c02newFixed(r.fork())
